@@ -7,9 +7,10 @@ WT=$(mktemp -d /tmp/wt_try_XXXXXX); rmdir "$WT"
 git -C /repo worktree add -q --detach "$WT" HEAD || exit 2
 trap 'git -C /repo worktree remove --force "$WT" >/dev/null 2>&1' EXIT
 if ! git -C "$WT" apply --check "$D/patch.diff" 2>/dev/null; then echo "PATCH DOES NOT APPLY: $D"; exit 3; fi
-echo "== demo on clean tree:"; /venv/bin/python "$D/demo.py" "$WT" >/dev/null 2>&1; echo "   exit $?"
+# NO_DEMO=1: skip the two demo runs (re-checks of seeded changes whose demos were confirmed when they were kept)
+[ -z "${NO_DEMO:-}" ] && { echo "== demo on clean tree:"; /venv/bin/python "$D/demo.py" "$WT" >/dev/null 2>&1; echo "   exit $?"; }
 git -C "$WT" apply "$D/patch.diff"
-echo "== demo with patch:"; /venv/bin/python "$D/demo.py" "$WT" 2>&1 | tail -2 | cut -c1-200; echo "   exit ${PIPESTATUS[0]}"
+[ -z "${NO_DEMO:-}" ] && { echo "== demo with patch:"; /venv/bin/python "$D/demo.py" "$WT" 2>&1 | tail -2 | cut -c1-200; echo "   exit ${PIPESTATUS[0]}"; }
 cd /verif
 for c in "$@"; do
   out=$(VERIF_REPO="$WT" VERIF_SEED=${VERIF_SEED:-1} ./check "$c" quick 2>&1)
